@@ -281,6 +281,7 @@ func runC15(r *Report) {
 	}
 
 	ruleTruncateOnClose(r)
+	ruleMetadata(r)
 	ruleWriterErrflow(r)
 	ruleFlushErrflow(r)
 }
